@@ -427,6 +427,67 @@ func runC19(w *World, r *Report) {
 			}
 			r.check(why == "", "storage-codec-is-transparent", shortFn(fn)+"/Marshal", lineOf(w, c), "the encoder is given the value itself", why)
 		}
+		// the same one level up: an encoder method (its Marshal is given the receiver / a parameter) called on a local copy
+		// of the value whose field was assigned before
+		instrsOf(fn, func(in ssa.Instruction) {
+			c, ok := in.(ssa.CallInstruction)
+			if !ok {
+				return
+			}
+			enc := c.Common().StaticCallee()
+			if enc == nil || !isRepoFunc(enc) || len(enc.Blocks) == 0 || enc == fn {
+				return
+			}
+			for _, mc := range callsTo(enc, "github.com/shamaton/msgpack/v2.Marshal", "github.com/vmihailenco/msgpack.Marshal") {
+				v := mc.Common().Args[0]
+				if vs, ok := v.(*ssa.Slice); ok {
+					v = vs.X
+				}
+				var walk func(x ssa.Value, d int) *ssa.Parameter
+				walk = func(x ssa.Value, d int) *ssa.Parameter {
+					if d > 6 || x == nil {
+						return nil
+					}
+					switch y := x.(type) {
+					case *ssa.Parameter:
+						return y
+					case *ssa.MakeInterface:
+						return walk(y.X, d+1)
+					case *ssa.ChangeType:
+						return walk(y.X, d+1)
+					case *ssa.UnOp:
+						return walk(y.X, d+1)
+					case *ssa.Alloc: // a value receiver / parameter spilled into a local
+						for _, ref := range *y.Referrers() {
+							if st, ok := ref.(*ssa.Store); ok && st.Addr == ssa.Value(y) {
+								if p := walk(st.Val, d+1); p != nil {
+									return p
+								}
+							}
+						}
+					}
+					return nil
+				}
+				prm := walk(v, 0)
+				if prm == nil {
+					continue
+				}
+				for k, p := range enc.Params {
+					if p != prm || k >= len(c.Common().Args) {
+						continue
+					}
+					why := ""
+					for _, o := range marshalSources(c.Common().Args[k], 0) {
+						if al, ok := o.(*ssa.Alloc); ok {
+							if fs := fieldStores(al, nil); fs != nil {
+								why = "the value handed to the encoder " + shortFn(enc) + " is the local copy " + al.Comment + " whose field is assigned at " + lineOf(w, fs) + " before it is encoded: the stored form is not the value's own, every reader of the record has to know how to undo it"
+							}
+						}
+					}
+					r.check(why == "", "storage-codec-is-transparent", shortFn(fn)+"/"+shortCallee(c), lineOf(w, c), "the encoder is given the value itself", why)
+				}
+			}
+		})
 		for _, c := range callsTo(fn, "github.com/shamaton/msgpack/v2.Unmarshal", "github.com/vmihailenco/msgpack.Unmarshal") {
 			why := ""
 			for _, o := range marshalSources(c.Common().Args[1], 0) {
